@@ -168,6 +168,12 @@ pub fn check_case(c: &TwoHopCase, l: &mut Local, bounds_only: bool) -> Result<()
             },
         }
     };
+    if let Err((leg, 1)) = &singles {
+        // a leg executed alone needs the trader to hold its whole input; the two-hop passes the intermediate token through.
+        // A single that fails only for the trader's funds says nothing about the two-hop.
+        l.count(&format!("skipped_leg{leg}_trader_funds"));
+        return Ok(());
+    }
     match (&singles, oa.ok()) {
         (Err((leg, code)), true) => return Err(format!("two-hop succeeded although leg {leg} fails on its own with {code}")),
         (Err((leg, code)), false) => {
